@@ -1437,8 +1437,13 @@ impl DateTimePrinter {
         // practice though.
         if offset.part_seconds_ranged().abs() >= C(30) {
             if minutes == 59 {
-                hours = hours.saturating_add(1);
-                minutes = 0;
+                // The maximum offset is `25:59:59`, and rounding it up would
+                // result in `26:00`, which is not a valid offset (and would
+                // be rejected when parsing). So it stays at `25:59`.
+                if hours < 25 {
+                    hours = hours.saturating_add(1);
+                    minutes = 0;
+                }
             } else {
                 minutes = minutes.saturating_add(1);
             }
